@@ -114,13 +114,14 @@ bool ThreadPool::initialize(ssize_t min_thread_num, ssize_t max_thread_num)
         std::lock_guard<std::mutex> lg(d_->lock);
         d_->min_thread_num = min_thread_num;
         d_->max_thread_num = max_thread_num;
+        //! 必须在创建工作线程之前、在锁内复位，否则 cleanup() 之后再次 initialize() 时新线程可能看到旧的停止标记而直接退出
+        d_->all_threads_stop_flag = false;
 
         for (ssize_t i = 0; i < min_thread_num; ++i)
             if (!createWorker())
                 return false;
     }
 
-    d_->all_threads_stop_flag = false;
     d_->is_ready = true;
 
     return true;
